@@ -38,6 +38,7 @@ let () =
         (match server_status (tok_of_key (explode key)) with
          | Some c -> print_endline (implode (dec_of_N c))
          | None -> print_endline "-")
+      | ["enc"; cat; ty; plain] -> print_endline (implode (payload_encoder (explode cat) (explode ty) (plain = "1")))
       | _ -> print_endline "ERR"
     done
   with End_of_file -> ()
